@@ -226,6 +226,45 @@ pub fn families(thorough: bool, seed: u64) -> FamilyResult {
         let iso = e.len() - 2 * l + 3;
         push(&mut rng, 2 * l + iso, e, format!("layered width=2 layers={l} + {iso} functions without edges (edges < functions)"));
     }
+    // re-convergence made of DATA edges: no (or few) user edges, the augmenter builds
+    // the multi-path region itself
+    for g in [4usize, 8, 12, 16, 20, 24, 28, 32, 36, 40] {
+        // writer, reader, reader, writer, ... over one type, no user edge at all:
+        // W -> {R, R} -> W -> ... (2^g paths through data edges)
+        let n = 3 * g + 1;
+        let fns: Vec<TestFn> = (0..n)
+            .map(|id| TestFn {
+                id,
+                reads: if id % 3 != 0 { vec![0] } else { vec![] },
+                writes: if id % 3 == 0 { vec![0] } else { vec![] },
+            })
+            .collect();
+        let case = BuildCase { spec: GraphSpec { fns, edges: vec![], batches: vec![] }, fail_pos: 0, mutation: None, labels: vec![], walks: vec![] };
+        cases.push((1u64 << g.min(62), case, format!("no user edges: writer, reader, reader, writer, ... over one type, {g} groups")));
+    }
+    for l in [8usize, 16, 24, 32, 40] {
+        // two logic chains a and b; a_i and b_i write a type of their own; which of the
+        // two was inserted first alternates per level, so the data edge between them
+        // alternates its direction
+        let n = 2 * l;
+        let mut fns: Vec<TestFn> = Vec::with_capacity(n);
+        let mut ida = vec![0usize; l];
+        let mut idb = vec![0usize; l];
+        for i in 0..l {
+            let (first, second) = if i % 2 == 0 { (&mut ida, &mut idb) } else { (&mut idb, &mut ida) };
+            first[i] = fns.len();
+            fns.push(TestFn { id: fns.len(), reads: vec![], writes: vec![i as u8] });
+            second[i] = fns.len();
+            fns.push(TestFn { id: fns.len(), reads: vec![], writes: vec![i as u8] });
+        }
+        let mut edges = vec![];
+        for i in 0..l - 1 {
+            edges.push((ida[i], ida[i + 1], Kind::Logic));
+            edges.push((idb[i], idb[i + 1], Kind::Contains));
+        }
+        let case = BuildCase { spec: GraphSpec { fns, edges, batches: vec![] }, fail_pos: 0, mutation: None, labels: vec![], walks: vec![] };
+        cases.push((1u64 << (l / 2).min(62), case, format!("two chains of {l} with same-level write conflicts, insertion order alternating per level")));
+    }
     // dense random DAGs
     let n_dense = if thorough { 60 } else { 20 };
     for k in 0..n_dense {
